@@ -375,6 +375,12 @@ def r9_client_delivery_order(ctx):
     ctx.instances[before:] = keep
 
 
+def r20_unconditional_mutators(ctx):
+    """Mutators this property relies on always perform their effect (shared table in rules/mutators.py)."""
+    import rules.mutators as mutators
+    mutators.run_for(ctx, "C05")
+
+
 RULES = [
     ("C05.R1", "recipient selection: three implementations, every SendMode arm guarded as the mode demands", r1_recipients, 18, ["default", "all-features", "server-only"]),
     ("C05.R2", "clients that connected after buffering are excluded in every arm", r2_late_joiners, 6, ["default", "all-features", "server-only"]),
@@ -385,5 +391,6 @@ RULES = [
     ("C05.R7", "events queued in a previous session cannot resurface (queue reset on connect, event pools emptied)", r7_no_old_session_events, 3, ["default", "all-features"]),
     ("C05.R8", "every recipient gets bytes built for its own tick (stamping cache, same rule as C04.R2)", r8_per_recipient_bytes, 5, ["default", "all-features", "server-only"]),
     ("C05.R9", "the client delivers queued (older) events before events received later (same rule as C04.R3)", r9_client_delivery_order, 3, ["default", "all-features", "client-only"]),
+    ("C05.R20", "mutators this property relies on always perform their effect (rules/mutators.py): no early return, no guard outside the allowed set", r20_unconditional_mutators, 2, ["default", "all-features"]),
 ]
 THOROUGH_CONFIGS = ["default", "all-features", "server-only"]
